@@ -2,7 +2,9 @@ H("c16_b3_jaeger", "C16", "seq", ["harness/c16_b3_jaeger.cc"], sdk=[],
   args={"quick": [], "thorough": []},
   what="real B3Propagator, B3PropagatorMultiHeader and JaegerPropagator (header-only, API): Inject followed by Extract over all 256 flag bytes x 4 id pairs and "
        "every (position, nibble) one-hot / all-f / mixed / zero trace and span id, local and remote originals, two caller contexts (ids, remote flag and sampled decision "
-       "must survive); Extract over every <= 1 (thorough: <= 2) point mutation (23 byte classes, insert / delete / duplicate / truncate at every length / tails, in any header "
-       "of the format) of 12 b3, 10 X-B3-* (incl. single+multi) and 10 uber-trace-id seeds, in exact-size heap blocks under ASan, against independent reference decoders "
-       "with a three-valued oracle; a rejected input must return the caller's context itself",
+       "must survive, no other flag bit may appear; the injected headers must be a documented form with the same ids and sampled decision under the reference decoders; "
+       "Fields() = the keys Inject wrote); Extract over every <= 1 (thorough: <= 2) point mutation (23 byte classes, insert / delete / duplicate / truncate at every length / "
+       "tails, in any header of the format incl. X-B3-Flags and X-B3-ParentSpanId) of 12 b3, 13 X-B3-* (incl. single+multi, X-B3-Flags: 1, parent id) and 11 uber-trace-id "
+       "(incl. %3A-encoded) seeds, in exact-size heap blocks under ASan, against independent reference decoders with a three-valued oracle (ids, sampled decision, no flag "
+       "bit the header does not carry); a rejected input must return the caller's context itself",
   design_ref="5/C16")
